@@ -1077,6 +1077,9 @@ class Unit:
                 j += 1
             if end is None:
                 raise AnchorLost("%s: fn %s: expression at `%s` has no block" % (rel, fn_name, at))
+            if "blockonly" in opts:
+                # the anchor is the HEAD of a match arm (e.g. `Some("election-win") =>`): what is extracted is the arm's block alone
+                start = j
             expr = s.text_of(start, end)
             src_line = s.line_of(toks[start].start)
             xparams = next((o.split("=", 1)[1] for o in opts if o.startswith("params=")), "")
@@ -1088,7 +1091,7 @@ class Unit:
             _sources[srel] = Source(srel, text=synth, line_base=src_line - 2)
             self.dropped.append("expression `%s ..` of %s (%s:%d): R10c extracted as fn %s; the enclosing function's locals `%s` become parameters" % (at, fn_name, rel, src_line, variant, xparams))
             self.counts.add("R10c.expression-extracted-as-function")
-            fopts = [o for o in opts if not o.startswith(("at=", "params=", "ret="))]
+            fopts = [o for o in opts if not o.startswith(("at=", "params=", "ret=")) and o != "blockonly"]
             if xret and not any(o.startswith("ret=") for o in fopts): fopts.append("ret=r")
             return self._do_fn(srel, variant, fopts, block)
         # locate `Request :: variant`
